@@ -180,7 +180,28 @@ def long_case(i):
             "crash": {"k": 3, "fault": None, "stray": None}}
 
 
+def overtake_case(adapter, k=None, second="step"):
+    """two stepping requests of ONE instance in flight together, the one that runs first overtaken at scheduling point k by
+    the other (which runs to completion); then the server is lost and the session continued"""
+    st = {"smA": {"base": {"constants": {"constant": 3.0}}}}
+    return {"property": PROPERTY,
+            "config": {"adapter": adapter, "list_order": "insertion",
+                       "model": {"template": "T1", "start": 1.0, "stop": 30.0, "dt": 1.0, "managers": {"smA": {"base": {}}}}},
+            "ops": [{"inst": 0, "op": "create"},
+                    {"inst": 0, "op": "begin", "scenarios": ["base"], "equations": ["stock", "constant"], "settings": {}},
+                    {"inst": 0, "op": "step", "settings": st},
+                    {"inst": 0, "op": "step", "settings": st, "pair": {"kind": "default"} if k is None else {"kind": "overtake", "k": k, "to": 1}},
+                    ({"inst": 0, "op": "step", "settings": st} if second == "step" else {"inst": 0, "op": "steps", "n": 2, "settings": st}),
+                    {"inst": 0, "op": "step", "settings": {}},
+                    {"inst": 0, "op": "results"}],
+            "crash": {"k": 5, "fault": None, "stray": None, "k2": None}}
+
+
 def plan(tier, verif_seed):
+    for second in ("step", "steps"):
+        r0 = execute(overtake_case("plain", None, second))
+        for kk in range(r0.points):
+            yield {"overtake": {"adapter": "plain", "k": kk, "second": second}}
     for i in range(len(LONG_CASES)):
         yield {"directed_long": i}
     nh = 80 if tier == "quick" else 10**9
@@ -208,6 +229,8 @@ def plan(tier, verif_seed):
 
 
 def generate(spec):
+    if "overtake" in spec:
+        return overtake_case(spec["overtake"]["adapter"], spec["overtake"]["k"], spec["overtake"]["second"])
     if "directed_long" in spec:
         return long_case(spec["directed_long"])
     case = gen_history(spec["hseed"], spec.get("long", False))
@@ -300,7 +323,7 @@ def _run(case, crash, log, res):
             # inside the adapter only, so that the two saves really overlap
             salt = (k or 0) * 31 + (k2_ or 0) * 7 + (len(repr(crash.get("fault"))) if crash else 0) + (1 if crash and crash.get("stray") else 0)
             sp["seed"] = (sp.get("seed", 0) * 1000003 + salt) % (2**32)
-            narrow = sp["seed"] % 3 != 0
+            narrow = sp["seed"] % 3 != 0 and sp.get("kind") == "random"
             if narrow:
                 sp["p"] = [0.15, 0.3, 0.5][sp["seed"] % 3 - 1] if sp["seed"] % 3 else 0.3
             sched = Scheduler(make_policy(sp), PAIR_TRACE[2:] if narrow else PAIR_TRACE, log=None)
